@@ -460,10 +460,10 @@ fn documented_float_form(frac: &str, exp: &str, suffix: &str) -> bool {
     }
     if !exp.is_empty() {
         let body = &exp[1..];
-        if body.starts_with('+') {
-            return false; // only `5E-5` is shown
-        }
-        let digits = body.trim_start_matches('-');
+        // `5E-5` (language reference, floats) and `1e+10` (syntax overview) are both shown:
+        // an explicit sign of either kind is a documented spelling (seeded change C09-5
+        // rejected the `+` form and went unnoticed while this said "only `5E-5` is shown")
+        let digits = body.trim_start_matches(['-', '+']);
         if digits.is_empty() {
             return false;
         }
